@@ -19,7 +19,7 @@ func c01History(b *googleBreaker) windowResult { return c01Hist }
 
 const c01MaxTotal = 40 << 20
 
-//verif:entry tier=quick,thorough float=mono steps=400000 cover=rejected,forced,admittedUnderThrottle
+//verif:entry tier=quick,thorough float=mono steps=400000 recycle=1 cover=rejected,forced,admittedUnderThrottle
 //verif:stub (*github.com/zeromicro/go-zero/core/breaker.googleBreaker).history c01History
 //verif:doc accept(): accepts/total symbolic with 0 <= accepts <= total <= 40*2^20; failingBuckets enumerated over 0..40; workingBuckets symbolic 0..40; lastPass and now symbolic up to 2^50 ns; random draw arbitrary in [0,1). Floats: E2 (real relaxation with rounding axioms).
 func Verif_C01_AdmissionLaw() {
